@@ -3,6 +3,7 @@ import Flumine.Proto
 import Flumine.Ladder
 import Flumine.Validation
 import Flumine.Controls
+import Flumine.DriverSim
 open Flumine Flumine.Proto
 
 def parseLadder? (s : String) : Option LadderDef :=
@@ -104,6 +105,7 @@ def handle (toks : List String) : String :=
   | "selexp" :: _ => (handleExpo toks).getD "bad-op"
   | "mexp" :: _ => (handleExpo toks).getD "bad-op"
   | "sexp" :: _ => (handleExpo toks).getD "bad-op"
+  | "simorder" :: rest => (DriverSim.handle rest).getD "bad-op"
   | "validate" :: rest => (handleValidate rest).getD "bad-op"
   | _ => "bad-op"
 
